@@ -26,6 +26,8 @@
 //   op <N|Fk> sub <s> <mode|-> <bkg> | leave <s> <unsub> | pub <s> <content> <noecho> |
 //             getdata <s> <since> <before> <limit> | getdesc <s> | unload | restart
 //   op N timeout | hubunreg | zpub <i> <s> <content> <noecho> | zexit <i>
+//   op N hubunregmid <s> <content> <noecho> | zfinish <i>      (the unregistration lands inside a publish
+//             handler: the instance's goroutine is held at the entry of Save's first adapter call)
 //   op N burst <held sessions a,b|-> <s> <content> <noecho> ...
 //   end
 // Reuses vScn (frame rendering, emitPush, emitStore, emitCache), vSess, vWaitQuiet, vInitServer, vKV,
@@ -201,6 +203,18 @@ type c01bScn struct {
 	pend    int
 	zombies []*Topic
 	spy     *c01bSpy
+	// the instance whose goroutine the driver holds inside store.Messages.Save (hubunregmid .. zfinish)
+	mid     *Topic
+	release chan struct{}
+}
+
+// lets the held publish go on (and the instance read its exit message)
+func (sc *c01bScn) releaseMid() {
+	if sc.mid != nil {
+		memverif.SetHook("TopicUpdateOnMessage", nil)
+		close(sc.release)
+		sc.mid, sc.release = nil, nil
+	}
 }
 
 // quiescence of the server plus: every write loop that is not held has emptied its queues
@@ -252,6 +266,8 @@ func (sc *c01bScn) newSession(si int) {
 }
 
 func (sc *c01bScn) dropAll() {
+	sc.releaseMid()
+	vWaitQuiet([]string{sc.topic})
 	for _, b := range sc.bs {
 		b.hold(false, false)
 		b.vs.s.cleanUp(true)
@@ -396,7 +412,7 @@ func (sc *c01bScn) bop(w []string) {
 			z = sc.zombies[i]
 		}
 		b := sc.bs[at(1)]
-		if z == nil || b == nil {
+		if z == nil || b == nil || z == sc.mid {
 			invalid = true
 			break
 		}
@@ -412,11 +428,95 @@ func (sc *c01bScn) bop(w []string) {
 			break
 		}
 		z := sc.zombies[i]
+		if z == sc.mid {
+			invalid = true
+			break
+		}
 		sc.zombies = append(sc.zombies[:i:i], sc.zombies[i+1:]...)
 		for s := range z.sessions {
 			for _, b := range sc.bs {
 				if b.vs.s == s {
 					b.setHoldDetach(false)
+				}
+			}
+		}
+	case "hubunregmid":
+		// The hub handles a pending unregister request while the registered instance is inside
+		// handlePubBroadcast: the instance's goroutine is held at the entry of the first adapter call
+		// of store.Messages.Save (memverif call hook), i.e. after its isInactive check.
+		t := globals.hub.topicGet(tn)
+		b := sc.bs[at(0)]
+		if sc.pend == 0 || t == nil || b == nil || sc.mid != nil {
+			invalid = true
+			break
+		}
+		if _, ok := t.sessions[b.vs.s]; !ok {
+			invalid = true
+			break
+		}
+		entered := make(chan struct{})
+		release := make(chan struct{})
+		var once sync.Once
+		memverif.SetHook("TopicUpdateOnMessage", func() {
+			first := false
+			once.Do(func() { first = true })
+			if first {
+				close(entered)
+				<-release
+			}
+		})
+		sc.send(at(0), sc.pubJSON(id, a[1], a[2]))
+		reached := false
+		deadline := time.Now().Add(20 * time.Second)
+		for !reached && time.Now().Before(deadline) {
+			select {
+			case <-entered:
+				reached = true
+			default:
+				if q, _ := vQuiescent([]string{tn}); q {
+					select {
+					case <-entered:
+						reached = true
+					default:
+						// handled without reaching Save (no W): the window does not exist
+						deadline = time.Now()
+					}
+				} else {
+					time.Sleep(20 * time.Microsecond)
+				}
+			}
+		}
+		if !reached {
+			memverif.SetHook("TopicUpdateOnMessage", nil)
+			invalid = true
+			break
+		}
+		sc.mid, sc.release = t, release
+		sc.pend--
+		for s := range t.sessions {
+			for _, b2 := range sc.bs {
+				if b2.vs.s == s {
+					b2.setHoldDetach(true)
+				}
+			}
+		}
+		sc.zombies = append(sc.zombies, t)
+		globals.hub.unreg <- &topicUnreg{rcptTo: tn}
+	case "zfinish":
+		i := at(0)
+		if i >= len(sc.zombies) || sc.zombies[i] != sc.mid || sc.mid == nil {
+			invalid = true
+			break
+		}
+		z := sc.zombies[i]
+		sc.zombies = append(sc.zombies[:i:i], sc.zombies[i+1:]...)
+		// the real goroutine of the instance goes on: Save, acknowledgement, broadcast, then its exit message
+		sc.releaseMid()
+		vWaitQuiet([]string{tn})
+		for s := range z.sessions {
+			for _, b2 := range sc.bs {
+				if b2.vs.s == s {
+					b2.setHoldDetach(false)
 				}
 			}
 		}
@@ -486,11 +586,14 @@ func (sc *c01bScn) bop(w []string) {
 		for _, x := range ss {
 			st = append(st, strconv.Itoa(x))
 		}
-		d := "0"
+		d, busy := "0", "0"
 		if z.isDeleted() {
 			d = "1"
 		}
-		fmt.Fprintf(sc.out, "zombie %d lastid=%d deleted=%s sess=%s\n", i, z.lastID, d, strings.Join(st, ","))
+		if z == sc.mid {
+			busy = "1"
+		}
+		fmt.Fprintf(sc.out, "zombie %d lastid=%d deleted=%s busy=%s sess=%s\n", i, z.lastID, d, busy, strings.Join(st, ","))
 	}
 }
 
